@@ -49,6 +49,13 @@ def make_world(kind, initial):
         p._lock = i._lock if p._lock is not None and not isinstance(p._lock, P.DummyLock) else sched.SLock(p._lock, False)
         p._messages = i._messages
         ctx['input'] = i
+    elif kind == 'cross':
+        # two ports, messages forwarded between them in both directions
+        p = sched.instrument(P.EchoPort())
+        other = sched.instrument(P.EchoPort())
+        ctx['other'] = other
+        import collections
+        collections.deque.extend(other._messages, [portsim.msg_of(k + 5000) for k in initial])
     elif kind == 'multi':
         kids = [sched.instrument(P.EchoPort()), sched.instrument(P.EchoPort())]
         p = sched.instrument(P.MultiPort(kids))
@@ -81,6 +88,8 @@ def make_world(kind, initial):
     # which lock guards which shared sequence (for the replay through the discipline machine)
     if kind == 'echo':
         ctx['guards'] = [(p._messages, p._lock)]
+    elif kind == 'cross':
+        ctx['guards'] = [(p._messages, p._lock), (ctx['other']._messages, ctx['other']._lock)]
     elif kind == 'wire':
         ctx['guards'] = [(ctx['wire'], p._lock)]
     elif kind == 'ioport':
@@ -88,10 +97,12 @@ def make_world(kind, initial):
     elif kind == 'multi':
         ctx['guards'] = [(k._messages, k._lock) for k in ctx['kids']] + [(p._messages, p._lock)]
     ctx['initial'] = {id(target._messages): list(initial)} if kind != 'wire' else {}
+    if kind == 'cross':
+        ctx['initial'][id(ctx['other']._messages)] = [k + 5000 for k in initial]
     return p, ctx
 
 
-def thread_fn(port, calls, record):
+def thread_fn(port, calls, record, ctx=None):
     def f():
         out = []
         for c in calls:
@@ -105,6 +116,15 @@ def thread_fn(port, calls, record):
                 port.send(m)
                 m.time = -7                          # the only attribute of a real-time message: same rule
                 out.append(('sent', c[1]))
+            elif c[0] == 'fwd':
+                # take ONE pending message of the source port (leaving the iterator open) and send it on to the other port
+                src, dst = (port, ctx['other']) if c[1] == 'ab' else (ctx['other'], port)
+                it = src.iter_pending()
+                m = next(it, None)
+                if m is not None:
+                    dst.send(m)
+                out.append(('fwd', m))
+                del it
             elif c[0] == 'poll':
                 r = port.poll()
                 out.append(('got', r))
@@ -143,7 +163,7 @@ def execute(prog, prefix, default='same', rng=None):
                 known.add(id(extra))
         s.known = known
         records = [[] for _ in threads]
-        progs = {NAMES[i]: thread_fn(port, calls, records[i]) for i, calls in enumerate(threads)}
+        progs = {NAMES[i]: thread_fn(port, calls, records[i], ctx) for i, calls in enumerate(threads)}
         info = {'alts': [], 'last': None, 'n': 0}
 
         def choose(live, en, trace):
@@ -181,6 +201,13 @@ def judge(prog, ob):
     for name, (st, val) in res.items():
         if st == 'raised':
             return f'{name} raised {type(val).__name__}: {val}'
+    if kind == 'cross':
+        import collections
+        have = sorted(portsim.ident(m) for q in (ob['port']._messages, ob['ctx']['other']._messages) for m in collections.deque.__iter__(q))
+        want = sorted(list(initial) + [k + 5000 for k in initial])
+        if have != want:
+            return f'after forwarding between the two ports they hold {have}, the messages there were are {want}'
+        return None
     if kind == 'pqueue':
         put_by = {i: [k for c in calls if c[0] == 'putbytes' for k in c[1]] for i, calls in enumerate(threads)}
         polled = []
@@ -379,6 +406,28 @@ def _cost(alts, prefix):
     return 0
 
 
+def pqueue_many(n):
+    """No scheduler: n messages put into a ParserQueue nobody reads meanwhile (bytes and message objects mixed) must all
+    come out, once, in order."""
+    from mido.backends._parser_queue import ParserQueue
+    pq = ParserQueue()
+    want = []
+    k = 0
+    while k < n:
+        chunk = list(range(k, min(n, k + 37)))
+        if (k // 37) % 3 == 2:
+            for i in chunk:
+                pq.put(portsim.msg_of(i))
+        else:
+            pq.put_bytes([b for i in chunk for b in portsim.msg_of(i).bytes()])
+        want += chunk
+        k += 37
+    got = [portsim.ident(m) for m in pq.iterpoll()]
+    if got != want:
+        return f'{n} messages were put into the ParserQueue, {len(got)} came out (first difference at index {next((i for i, (a, b) in enumerate(zip(got, want)) if a != b), min(len(got), len(want)))})'
+    return None
+
+
 def gen_programs(ck):
     rng = ck.rng
     progs = []
@@ -405,6 +454,9 @@ def gen_programs(ck):
     progs.append(('pqueue', [], [[('putbytes', [next(ids), next(ids)])], [('putbytes', [next(ids), next(ids)])], [('qpoll',)]]))
     # echo with iter_pending
     progs.append(('echo', [next(ids)], [[('send', next(ids))], [('pending',)], [('poll',)]]))
+    # two ports forwarding to each other: an open iter_pending() must not keep the port locked
+    progs.append(('cross', [next(ids)], [[('fwd', 'ab')], [('fwd', 'ba')]]))
+    progs.append(('cross', [next(ids), next(ids)], [[('fwd', 'ab'), ('fwd', 'ab')], [('fwd', 'ba')], [('fwd', 'ba')]]))
     # real-time messages (their only attribute is `time`): copy-on-send holds for them as well
     progs.append(('echo', [], [[('sendrt', next(ids)), ('sendrt', next(ids))], [('poll',), ('poll',)]]))
     progs.append(('multi', [], [[('sendrt', next(ids))], [('poll',), ('poll',)]]))
@@ -466,6 +518,13 @@ def run(ck):
                 dreqs.append(o['dreq'])
                 dimpl.append(o['dline'])
                 ck.count('discipline_replay:' + prog[0])
+    for n in ([1025, 3000] if ck.tier == 'quick' else [1023, 1024, 1025, 2049, 10000, 70000]):
+        ck.evaluations += 1
+        ck.count('pqueue_many')
+        ck.note_case(('pqueue_many', n))
+        f = pqueue_many(n)
+        if f:
+            ck.oracle_fail({'pqueue_many': n}, f)
     ck.compare('ports_conc', reqs, impl, ck.driver.run(reqs))
     ck.compare('lock_discipline', dreqs, dimpl, ck.driver.run(dreqs))
     ck.sample({'prog': repr(progs[1]), 'schedule': res[1][5]['decisions'] if len(res[1]) > 5 else res[1][0]['decisions']})
@@ -480,6 +539,8 @@ def run(ck):
 
 
 def oracle(case):
+    if 'pqueue_many' in case:
+        return pqueue_many(case['pqueue_many'])
     prog = eval(case['prog'])
     ob = execute(prog, list(case['schedule']))
     return judge(prog, ob)
